@@ -12,7 +12,7 @@ RULE = ("random acyclic component graphs (2-14 nodes quick, up to 40 thorough) b
         ">= 3 nodes, >= 1 edge and >= 2 nodes without a path between them (a tie-break exists); distinct by hash of "
         "the full case spec")
 ASSUMPTIONS = [
-    "None is never used as an ordinary component value",
+    "None is not used as a value a component body returns; pre-seeded values may be None",
     "the order the engine chooses is varied by allocation perturbation and by the PYTHONHASHSEED sweep of C04, not enumerated",
     "events are recorded by wrapping ComponentType.process / rule.process / Broker.__setitem__ / dr.run_order from the harness",
 ]
@@ -63,14 +63,20 @@ def nontrivial(spec):
 def run_case(spec, ctx):
     r = E.execute(spec)
     try:
-        for mech, wit in E.oracle_c01(r):
-            ctx.violation(mech, wit)
-        for ev in r.events:
-            k = ev[2]
-            ctx.count(k + "_events")
-            if k == "order":
-                ctx.seen("run_orders", hash(tuple(r.built.index.get(c, -1) for c in ev[3])) & 0xffffffff)
+        runs = [r]
+        if spec.get("late_impls"):
+            runs.append(E.second_phase(r))
+            ctx.count("second_evaluations_after_late_registration")
+        for n_, rr in enumerate(runs):
+            for mech, wit in E.oracle_c01(rr):
+                ctx.violation(mech, dict(wit, evaluation=n_ + 1))
+            for ev in rr.events:
+                k = ev[2]
+                ctx.count(k + "_events")
+                if k == "order":
+                    ctx.seen("run_orders", hash(tuple(rr.built.index.get(c, -1) for c in ev[3])) & 0xffffffff)
+            ctx.count("seeded_nodes", len(rr.seeds))
+            ctx.count("seeded_with_None", sum(1 for v in rr.seeds.values() if v is None))
         ctx.count("entry_" + spec["entry"]["form"])
-        ctx.count("seeded_nodes", len(r.seeds))
     finally:
         r.built.cleanup()
